@@ -118,6 +118,23 @@ def explore(chk):
         for x, y in pairs:
             i = b.add("geo.eq", kind, ENC[kind](x), ENC[kind](y) if y is not None else "N")
             jobs.append(("eq", kind, x, y, i))
+    # (a') values of different kinds are never equal, whatever their components (a point is not a stretch)
+    G_ = grids(rng, chk.tier)
+    kinds = [k for k in G_ if k != "layout"]
+    for k1 in kinds:
+        for k2 in kinds:
+            if k1 == k2:
+                continue
+            for x in G_[k1][:12]:
+                for y in G_[k2][:12]:
+                    chk.case(key=("xeq", k1, k2, repr(x), repr(y)), nontrivial=True); chk.count("cross_kind_pairs")
+                    try:
+                        eq_, ne_ = bool(x == y), bool(x != y)
+                    except Exception as e:
+                        chk.property_failure({"a": repr(x), "b": repr(y), "error": repr(e)[:200]}, "comparing a %s with a %s raised" % (k1, k2)); continue
+                    if eq_ or not ne_:
+                        chk.property_failure({"op": "eq", "a": repr(x), "b": repr(y), "kinds": [k1, k2], "impl": eq_, "impl_ne": ne_},
+                                             "a %s compares equal to a %s: values of different kinds are different values" % (k1, k2))
     # (b) parsing
     seen = set()
     for s in parse_strings(chk):
